@@ -963,11 +963,45 @@ def build_fortran_definition(
         equation = s.equation
 
         pattern = re.compile(r'([_A-Za-z][_A-Za-z0-9]*)\[(.*?)\]')
-        code = equation
-        for match in reversed(list(pattern.finditer(equation))):
+
+        # Numeric literals in the equations stand for double-precision numbers
+        # (as in Python): write them as such. Left as they are, Fortran reads
+        # `0.1` as single precision and `1/2` as integer division (zero), and
+        # rejects integers passed to `max()`, `min()`, `exp()` etc
+        number = re.compile(r'(?<![\w.])(\d+(?:\.\d*)?|\.\d+)(?![\w.])')
+
+        def to_double_precision(expression: str) -> str:
+            def convert(match: re.Match) -> str:
+                literal = match[1]
+
+                # Leave integer exponents (e.g. `x ** 2`, `x ** -1`) as
+                # integers: Fortran prohibits raising a negative real to a
+                # real power, whereas integer powers are always defined
+                if '.' not in literal:
+                    before = expression[: match.start()].rstrip()
+                    if before.endswith(('+', '-')):
+                        before = before[:-1].rstrip()
+                    if before.endswith('**'):
+                        return literal
+
+                    return literal + '.0d0'
+
+                return literal + 'd0'
+
+            return number.sub(convert, expression)
+
+        # Convert the variable references (leaving their indexes alone) and the
+        # literals in the text between them
+        pieces = []
+        position = 0
+        for match in pattern.finditer(equation):
             start, end = match.span()
             variable = f"solved_values({variables_to_numbers[match[1]]}, {match[2].replace('t', 'index')})"
-            code = code[:start] + variable + code[end:]
+            pieces.append(to_double_precision(equation[position:start]))
+            pieces.append(variable)
+            position = end
+        pieces.append(to_double_precision(equation[position:]))
+        code = ''.join(pieces)
 
         block = f'! {equation}\n' + '  &\n&  '.join(
             textwrap.wrap(code, width=wrap_width)
